@@ -20,7 +20,12 @@ LEVEL_TEXT = ("Lean 4 theorems about the decision model in both modes: from equa
               "direct dependency is materialised with, path by path, the value mode all has in its workspace (deps_current_at_exec: the "
               "value its output hash encodes) — and same_verdict_and_execs_holds — for every well-formed history of edits, taints and "
               "builds with any flags, run in lock step in both modes over separate caches, every build has the same verdict, the same "
-              "per-target verdicts, the same executed commands in the same order and leaves the same cache. "
+              "per-target verdicts, the same executed commands in the same order and leaves the same cache. Clause by clause: (1) same "
+              "verdict and executed set = same_verdict_and_execs_holds; (2) dependency outputs present and current when a command starts = "
+              "deps_present_at_exec_holds + deps_current_at_exec; (3) materialised outputs have the bytes of mode all = Rel.loaded inside "
+              "these theorems + materialised_equal (per load). Excluded from the theorems (generated and compared by the oracle instead): "
+              "lost blobs, read faults while loading (witness + in-process test), output checks that inspect declared outputs (repaired "
+              "divergence, witness), `grog run` (lock-step family run). "
               "Tied by lock-step history correspondence against the real CLI in both modes.")
 LEVEL_NOTE = ("The lock-step theorem excludes histories with lost blobs (dropBlob steps; CasOK — every blob a stored result names is in the "
               "CAS — is required at the start and preserved by every other step): with a lost blob mode all re-executes an irretrievable "
@@ -50,7 +55,7 @@ ASSUMPTIONS = [
     "cache key injective (C09), restore exact (C06), atomic per-target steps",
 ]
 
-FAMILIES_QUICK = [("edits", 2), ("wipe", 4), ("lostblob", 4), ("dirs", 2), ("alias", 2), ("aliaswipe", 3), ("nocache", 3), ("tamper", 1), ("disabled", 2), ("taint", 2), ("collector", 2), ("run", 4), ("fanout", 3), ("depchecks", 3)]
+FAMILIES_QUICK = [("edits", 2), ("wipe", 3), ("lostblob", 3), ("dirs", 2), ("alias", 2), ("aliaswipe", 3), ("nocache", 3), ("tamper", 1), ("disabled", 2), ("taint", 2), ("collector", 2), ("run", 3), ("fanout", 3), ("depchecks", 3)]
 FAMILIES_THOROUGH = [(f, n * 15) for f, n in FAMILIES_QUICK]
 
 
